@@ -280,11 +280,36 @@ where
             _ => return Err(ConnectionInnerError::IllegalState),
         };
 
-        match self.connection.session_tx_by_incoming_channel(channel) {
-            Some(tx) => tx.send(frame).await?,
+        let tx = match self.connection.session_tx_by_incoming_channel(channel) {
+            Some(tx) => tx.clone(),
             None => return Err(ConnectionInnerError::NotFound(None)),
         };
-        Ok(())
+
+        // The session's queue may be full while the session itself waits for room in the
+        // queue of outgoing session frames, which only this loop empties. Waiting for the one
+        // without serving the other would leave both tasks waiting for each other: what the
+        // sessions have queued is written out while the frame waits for its place.
+        let send = tx.send(frame);
+        tokio::pin!(send);
+        let mut outgoing_session_frames_closed = false;
+        loop {
+            tokio::select! {
+                biased;
+
+                result = &mut send => {
+                    result?;
+                    return Ok(());
+                },
+                outgoing = self.outgoing_session_frames.recv(), if !outgoing_session_frames_closed => {
+                    match outgoing {
+                        Some(outgoing) => {
+                            self.on_outgoing_session_frames(outgoing).await?;
+                        }
+                        None => outgoing_session_frames_closed = true,
+                    }
+                }
+            }
+        }
     }
 
     #[cfg_attr(feature = "tracing", tracing::instrument(name = "RECV", skip_all))]
